@@ -3,7 +3,6 @@ package c18
 import (
 	"context"
 	"fmt"
-	"io"
 	"net/http"
 	"net/http/httptest"
 	"os"
@@ -25,7 +24,10 @@ import (
 // 1-4 route groups on ONE server, built the way a Server builds them
 // (newEngine, Use, AddRoutes with rest.WithJwt / WithJwtTransition / WithSignature /
 // no option, bindRoutes onto the pat router; seam rest.VerifNewServerHandler), each
-// group with its own secrets / RSA keys / tolerance / strictness.  The request
+// group with its own secrets / RSA keys / tolerance / strictness (jwt secrets
+// unique to the group or drawn from a pool shared by the groups: same current
+// secret with different previous secrets, one group's previous secret being
+// another's current one, ...; AddRoutes order = a drawn permutation).  The request
 // kinds of the direct scenarios are sent through the router to routes of
 // different groups, also with credentials made for ANOTHER group.
 //
@@ -110,6 +112,7 @@ type engWorld struct {
 	r        *simrt.Run
 	cw       *csWorld
 	groups   []*egroup
+	order    []int // order[k] = index of the group registered k-th (AddRoutes call order)
 	nUse     int
 	unauthCb bool
 	unsCb    bool
@@ -135,6 +138,10 @@ func engineWiring(r *simrt.Run, tier string) {
 	keyPool := []int{0, 1, 3, 4}
 	fpNames := []string{"fp-0", "fp-1", "fp-2"}
 	tolerances := []time.Duration{time.Hour, time.Second, 5 * time.Second, time.Minute, 2 * time.Second}
+	// a small pool of secrets the jwt settings of the groups may be drawn from, so that groups can share the
+	// current secret and differ in the previous one, honour as previous secret what another group uses now or
+	// honoured before, ... (every group is judged by exactly its own pair)
+	secretPool := []string{"pool0-" + g.text(4+int(g.next()%24)), "pool1-" + g.text(4+int(g.next()%24)), "pool2-" + g.text(4+int(g.next()%24))}
 	for i := 0; i < ng; i++ {
 		gr := &egroup{idx: i, prefix: fmt.Sprintf("/g%d", i)}
 		gr.kind = weighted(t, 3, 2, 3, 3, 1, 1, 1)
@@ -153,15 +160,37 @@ func engineWiring(r *simrt.Run, tier string) {
 			attacker: fmt.Sprintf("g%dx-%s", i, g.text(4+int(g.next()%24))),
 		}
 		ownPrev := fmt.Sprintf("g%dp-%s", i, g.text(4+int(g.next()%24)))
-		pv := weighted(t, 4, 1, 1)
+		curPool := -1
+		if cs := weighted(t, 3, 1, 1, 1); cs > 0 && gr.hasJwt {
+			curPool = cs - 1
+			gr.sec.cur = secretPool[curPool]
+			r.Probe("engine-group-current-secret-from-pool")
+		}
+		pv := weighted(t, 4, 1, 1, 2, 1)
 		if gr.kind == gkJwtTransition || gr.kind == gkJwtTransitionSig {
+			gr.sec.prev = ownPrev
 			switch {
 			case pv == 1:
-				// WithJwtTransition(secret, ""): no previous secret
+				gr.sec.prev = "" // WithJwtTransition(secret, ""): no previous secret
 			case pv == 2 && i > 0:
 				gr.sec.prev = e.groups[t.Intn(i)].sec.cur // this group still honours what another group uses now
-			default:
-				gr.sec.prev = ownPrev
+			case pv == 3:
+				// a pool secret other than the own current one
+				if curPool >= 0 {
+					gr.sec.prev = secretPool[(curPool+1+t.Intn(2))%3]
+				} else {
+					gr.sec.prev = secretPool[t.Intn(3)]
+				}
+			case pv == 4 && i > 0:
+				if o := e.groups[t.Intn(i)].sec.prev; o != "" {
+					gr.sec.prev = o // the same previous secret as another group
+				}
+			}
+		}
+		if gr.hasJwt && t.Chance(1, 3) {
+			// the secret this group has retired is one of the pool: other groups may still use or honour it
+			if s := secretPool[t.Intn(3)]; s != gr.sec.cur && s != gr.sec.prev {
+				gr.sec.retired = s
 			}
 		}
 		gr.sig.strict = gr.kind != gkSigLoose
@@ -202,9 +231,23 @@ func engineWiring(r *simrt.Run, tier string) {
 	for i := range usePos {
 		usePos[i] = t.Intn(ng + 1)
 	}
+	e.order = t.Perm(ng) // AddRoutes call order
+	for k, gi := range e.order {
+		if k != gi {
+			r.Probe("engine-groups-registered-out-of-index-order")
+			break
+		}
+	}
+	e.probeSharedSecrets()
 
 	// requests
 	nTasks, perTask := engSizes(t, tier)
+	// burst: 2-4 tasks issue their requests (almost) at the same instant, most of them honest
+	burst := t.Chance(1, 4)
+	if burst {
+		nTasks = t.Range(2, 4)
+		r.Probe("engine-burst")
+	}
 	plans := make([][]*ereqPlan, nTasks)
 	for i := range plans {
 		for j := 0; j < perTask; j++ {
@@ -224,6 +267,12 @@ func engineWiring(r *simrt.Run, tier string) {
 			}
 			p.jp = drawJwtPlan(t, false)
 			p.cp = drawCsPlan(t)
+			if burst {
+				overlapCsPlan(t, &p.cp)
+				if !t.Chance(1, 4) {
+					p.jp = jwtPlan{signer: p.jp.signer, alg: p.jp.alg, exp: 1, nclaims: p.jp.nclaims, cseed: p.jp.cseed, mseed: p.jp.mseed}
+				}
+			}
 			if !tg.hasSig && !t.Chance(1, 3) {
 				p.cp.kind = ckNoHeader
 			}
@@ -250,10 +299,10 @@ func engineWiring(r *simrt.Run, tier string) {
 		gdesc = append(gdesc, gr.String())
 	}
 	r.Sample(map[string]any{"scenario": "rest engine wiring", "groups": gdesc, "user_middlewares": e.nUse, "custom_chain": e.custom,
-		"unauthorized_callback": e.unauthCb, "unsigned_callback": e.unsCb, "tasks": nTasks, "requests_per_task": perTask,
+		"unauthorized_callback": e.unauthCb, "unsigned_callback": e.unsCb, "registration_order": e.order, "burst": burst, "tasks": nTasks, "requests_per_task": perTask,
 		"first_request": fmt.Sprintf("%+v", *plans[0][0])})
 	if r.Tracing() {
-		r.Logf("engine wiring: %s; use=%d@%v custom-chain=%v unauthorized-cb=%v unsigned-cb=%v middlewares=%+v", strings.Join(gdesc, "; "), e.nUse, usePos, e.custom, e.unauthCb, e.unsCb, conf.Middlewares)
+		r.Logf("engine wiring: %s; registration order %v; use=%d@%v custom-chain=%v unauthorized-cb=%v unsigned-cb=%v middlewares=%+v", strings.Join(gdesc, "; "), e.order, e.nUse, usePos, e.custom, e.unauthCb, e.unsCb, conf.Middlewares)
 	}
 	r.Probe("engine-wiring")
 
@@ -272,6 +321,33 @@ func engineWiring(r *simrt.Run, tier string) {
 	}
 	if e.boundary || e.cw.boundary {
 		r.Probe("nontrivial")
+	}
+}
+
+// probeSharedSecrets: coverage of the jwt configurations that relate two groups of the server.
+func (e *engWorld) probeSharedSecrets() {
+	r := e.r
+	for _, a := range e.groups {
+		for _, b := range e.groups {
+			if a == b || !a.hasJwt || !b.hasJwt {
+				continue
+			}
+			if a.sec.cur == b.sec.cur && a.sec.prev != b.sec.prev {
+				r.Probe("engine-groups-share-current-secret-differ-in-previous")
+			}
+			if a.sec.cur == b.sec.cur && a.sec.prev == b.sec.prev {
+				r.Probe("engine-groups-with-identical-jwt-setting")
+			}
+			if a.sec.prev != "" && a.sec.prev == b.sec.cur {
+				r.Probe("engine-group-previous-secret-is-current-of-other-group")
+			}
+			if a.sec.prev != "" && a.sec.prev == b.sec.prev && a.sec.cur != b.sec.cur {
+				r.Probe("engine-groups-share-previous-secret-only")
+			}
+			if a.sec.retired == b.sec.cur || (b.sec.prev != "" && a.sec.retired == b.sec.prev) {
+				r.Probe("engine-group-retired-secret-still-valid-for-other-group")
+			}
+		}
 	}
 }
 
@@ -383,7 +459,7 @@ func (e *engWorld) buildServer(conf rest.RestConf, usePos []int) http.Handler {
 			c.ran++
 			rec.ranGroup = gi
 			c.th = time.Now()
-			c.gotBody, _ = io.ReadAll(req.Body)
+			readBody(r, c, req.Body)
 			for _, key := range rec.bt.claimKeys {
 				rec.seen[key] = req.Context().Value(key)
 			}
@@ -410,8 +486,8 @@ func (e *engWorld) buildServer(conf rest.RestConf, usePos []int) http.Handler {
 		if i == len(e.groups) {
 			break
 		}
-		gr := e.groups[i]
-		hf := mkHandler(i)
+		gr := e.groups[e.order[i]]
+		hf := mkHandler(gr.idx)
 		grp := &rest.VerifRouteGroup{}
 		for _, m := range csMethods {
 			for _, b := range engBases {
@@ -691,6 +767,16 @@ func (e *engWorld) check(rec *erec, rw *httptest.ResponseRecorder) {
 			cls = "engine-user-middleware-ran-without-valid-token"
 		case !mayJ:
 			cls = "engine-" + failClassAccepted(&jv)
+			if jv.reason == "bad-signature" {
+				// the token is no credential for THIS group; is it one for another group of the server?
+				for _, o := range e.groups {
+					if o != tg && o.hasJwt && judgeJWT(rec.bt.auth, true, o.allowed()).sigOK {
+						cls = "engine-jwt-accepted-secret-of-other-group"
+						desc += fmt.Sprintf(" [the token verifies under a secret configured for %s]", o)
+						break
+					}
+				}
+			}
 		case c.ran == 0:
 			cls = "engine-user-middleware-ran-without-valid-signature"
 		case cv.reason == "":
